@@ -32,6 +32,9 @@ func (u *Unit) execCall(p *Path, x *ssa.Call) {
 	case *ssa.Builtin:
 		u.execBuiltin(p, x, callee)
 	case *ssa.Function:
+		if u.builderCall(p, x, callee) {
+			return
+		}
 		var args []*Term
 		for _, a := range cc.Args {
 			args = append(args, u.val(p, a))
@@ -563,4 +566,50 @@ func (u *Unit) inline(p *Path, x *ssa.Call, callee *ssa.Function, args []*Term) 
 
 func describeCall(x *ssa.Call) string {
 	return strings.TrimSpace(x.String())
+}
+
+// builderCall models the methods of a local strings.Builder, which is represented by the string it has
+// accumulated (see execAlloc): WriteString/WriteByte/WriteRune append, Len and String read, Reset empties.
+func (u *Unit) builderCall(p *Path, x *ssa.Call, callee *ssa.Function) bool {
+	name := callee.String()
+	if !strings.HasPrefix(name, "(*strings.Builder).") || len(x.Call.Args) == 0 {
+		return false
+	}
+	a, ok := p.addrs[x.Call.Args[0]]
+	if !ok || a.Kind != "local" {
+		return false
+	}
+	cur := u.load(p, a)
+	if cur.Sort != SStr {
+		return false
+	}
+	u.useTrusted("(*strings.Builder)")
+	switch strings.TrimPrefix(name, "(*strings.Builder).") {
+	case "WriteString":
+		arg := u.val(p, x.Call.Args[1])
+		u.store(p, a, Concat(cur, arg))
+		u.setResults(p, x, []*Term{App("str.len", SInt, arg), IntLit(0)})
+	case "WriteByte":
+		c := u.val(p, x.Call.Args[1])
+		u.store(p, a, Concat(cur, App("str.from_code", SStr, c)))
+		u.setResults(p, x, []*Term{IntLit(0)})
+	case "WriteRune":
+		// the UTF-8 encoding of a rune is not modelled: some non-empty text is appended
+		t := u.cx.Fresh("runetext", SStr)
+		p.assume(Ge(App("str.len", SInt, t), IntLit(1)))
+		u.store(p, a, Concat(cur, t))
+		u.setResults(p, x, []*Term{App("str.len", SInt, t), IntLit(0)})
+	case "Len":
+		u.setResults(p, x, []*Term{App("str.len", SInt, cur)})
+	case "String":
+		u.setResults(p, x, []*Term{cur})
+	case "Reset":
+		u.store(p, a, StrLit(""))
+		u.setResults(p, x, nil)
+	case "Grow":
+		u.setResults(p, x, nil)
+	default:
+		return false
+	}
+	return true
 }
